@@ -98,8 +98,10 @@ fn variants(s: &mut Src, file: &str, idx: usize) -> (String, String) {
     let name = format!("T{}", idx);
     let other = if idx == 1 { "./m2" } else { "./m1" };
     let other_name = if idx == 1 { "T2" } else { "T1" };
-    let v = s.below(15);
+    let v = s.below(17);
     let (label, text) = match v {
+        15 => ("jsdoc1_reworded", format!("/** The same payload, described differently ({}). */\nexport type {} = {{\n  /** still the a field */\n  a: string;\n}};\n", file, name)),
+        16 => ("jsdoc1_undocumented", format!("export type {} = {{\n  a: string;\n}};\n", name)),
         13 => ("provides_other_type", format!("export type {} = {{ provided_by: \"{}\" }};\n", other_name, file)),
         14 => ("private_type_same_name", format!("type {} = {{ legacy: boolean }};\nexport type Unrelated{} = {};\n", name, idx, name)),
         7 => ("empty", String::new()),
@@ -121,8 +123,12 @@ fn variants(s: &mut Src, file: &str, idx: usize) -> (String, String) {
 
 fn entry_variants(s: &mut Src, nmods: usize) -> (String, String) {
     let imports: String = (1..=nmods).map(|i| format!("import {{ T{} }} from \"./m{}\";\n", i, i)).collect();
-    let v = s.below(9);
+    let v = s.below(13);
     match v {
+        9 => ("valid1_reordered".into(), format!("{}parse.buildParsers<{{ B: {}; A: T1 }}>();\n", imports, if nmods >= 2 { "T2" } else { "string" })),
+        10 => ("namespace_typeof_member".into(), "import * as Ns from \"./m1\";\nparse.buildParsers<{ A: typeof Ns.k1 }>();\n".to_string()),
+        11 => ("namespace_typeof_whole".into(), "import * as Ns from \"./m1\";\nparse.buildParsers<{ A: typeof Ns }>();\n".to_string()),
+        12 => ("namespace_type_member".into(), "import * as Ns from \"./m1\";\nparse.buildParsers<{ A: Ns.T1 }>();\n".to_string()),
         7 | 8 if nmods >= 2 => ("through_barrel".into(), "import { T1, T2 } from \"./bar\";\nparse.buildParsers<{ A: T1; B: T2 }>();\n".to_string()),
         5 => ("jsdoc".into(), format!("{}/** the local wrapper */\ntype Local = {{\n  /** wrapped */\n  x: T1;\n}};\nparse.buildParsers<{{ A: Local }}>();\n", imports)),
         6 => ("empty".into(), String::new()),
